@@ -181,6 +181,21 @@ func (g *group[P, S, R]) same(x *engine.X, key, what string, got P, want R) bool
 		x.Failf(g.name+"/isidentity", "%s: IsZero=%v IsOpIdentity=%v but the value is %s", what, got.IsZero(), got.IsOpIdentity(), g.ref.Key(want))
 		return false
 	}
+	// the result must also BEHAVE as that value when used as an operand (a degenerate internal representation, e.g.
+	// the all-zero projective triple, can pass equality and identity tests and still absorb everything added to it)
+	if g.hasRefG {
+		gen := g.gen()
+		for _, side := range []struct {
+			name string
+			sum  P
+		}{{"result+G", got.Add(gen)}, {"G+result", gen.Add(got)}} {
+			r2, err := g.toRef(side.sum)
+			if err != nil || !g.ref.Equal(r2, g.ref.Add(want, g.refG)) {
+				x.Failf(g.name+"/degenerate-result", "%s: the result equals the reference value but %s does not equal value+G (err=%v)", what, side.name, err)
+				return false
+			}
+		}
+	}
 	return true
 }
 
